@@ -24,6 +24,9 @@ _RC_PARSER = [
     # totality
     "hostile_content_length_value_mutated", "hostile_missing_colon", "hostile_bare_cr", "hostile_nul", "hostile_bad_escape",
     "hostile_unstructured", "hostile_rejected", "hostile_yielded_requests", "hostile_waiting_for_more",
+    # declared lengths at the boundaries of the size type (2^64 - k for k around the header-block length, SIZE_MAX, 2^63, 2^32, 2^31)
+    "hostile_cl_2p64_minus_header_length", "hostile_cl_2p64_window", "hostile_cl_2p64_exact", "hostile_cl_size_max", "hostile_cl_2p63_boundary",
+    "hostile_cl_2p32_boundary", "hostile_cl_2p31_boundary", "hostile_cl_boundary_with_bytes_following", "hostile_cl_boundary_without_body",
 ]
 _RC_SERVER = [
     "srv_requests_delivered", "srv_responses_received",
@@ -39,8 +42,11 @@ _RC_SERVER = [
     # hostile bytes and vanishing clients against the live server
     "live_cases", "live_content_length_value_mutated", "live_client_closed_mid_stream", "live_client_reset_mid_stream",
     "live_handlers_pending_when_client_left", "live_completed_after_server_cleanup", "live_requests_reached_handler", "live_server_dropped_connection",
+    "live_cl_2p64_minus_header_length", "live_cl_2p64_window", "live_cl_size_max", "live_cl_2p63_boundary", "live_cl_2p32_boundary",
+    "live_cl_boundary_with_bytes_following", "live_cl_boundary_without_body",
 ]
-_RC_FUZZ = ["fuzz_execs", "fuzz_multi_segment_execs", "fuzz_feeds_rejected", "fuzz_feeds_yielding_requests", "fuzz_inputs_with_byte_ge_0x80"]
+_RC_FUZZ = ["fuzz_execs", "fuzz_multi_segment_execs", "fuzz_feeds_rejected", "fuzz_feeds_yielding_requests", "fuzz_inputs_with_byte_ge_0x80",
+            "fuzz_seeds_with_boundary_content_length"]
 
 PROP = dict(
     harnesses={
@@ -72,8 +78,11 @@ PROP = dict(
           "claim more bytes than given, and end in kInit with nothing left. "
           "hostile: one case = random bytes, protocol token soup, hostile header lines, 1-9 kB single tokens, or a valid stream with 1-3 edits (Content-Length "
           "replaced by non-numeric / negative / 2^31 / 2^32 / 2^63 / 2^64 / 26-digit / empty / blank / '+5' / '0x10' / '1e3' text, missing colon, bare CR or LF, NULs, "
-          "deleted / duplicated / flipped bytes, truncation, broken escapes, target noise, extra header lines) fed whole, in 2 segments, in 2-8 segments and "
-          "byte by byte: parse() must return, claim no more than it got, make progress. "
+          "deleted / duplicated / flipped bytes, truncation, broken escapes, target noise, extra header lines), or (1 case in 11) a request whose Content-Length is a valid "
+          "decimal at a boundary of the size type - 2^64-k for k in 0..H+8 with H the length of its own start line + headers (k = H in a third of them), SIZE_MAX, SIZE_MAX-1, "
+          "2^63+-1, 2^32+-1, 2^31+-1 - with nothing, a few body bytes, random bytes or another request behind it; fed whole, in 2 segments, in 2-8 segments and "
+          "byte by byte: parse() must return, claim no more than it got, never report kFinishedAll out of a call that consumed nothing, and hand out a request only with "
+          "exactly as many body bytes as its decimal Content-Length says. "
           "pipeline: a real Server on a loopback port driven pass by pass by the harness thread; 1-8 requests on one connection, 60% with a closing request "
           "(Connection: close or HTTP/1.0 without keep-alive) last or in the middle, sent in 1-8 segments (or byte by byte) with 0-5 loop passes in between; each "
           "handler is scripted: answered by the first or second stage of a middleware chain whose next() is called at once or 1-6 passes later, completed inside "
@@ -82,7 +91,9 @@ PROP = dict(
           "request ordinal; exactly one each, in request order, complete, nothing behind the closing one), EOF/reset after the closing response. "
           "order: the same machinery over the complete product n in 1..4 x permutation x inside/late mask x closing position x spacing. "
           "live: hostile bytes to the live server in random segments, the client leaving (FIN or RST) with handlers pending, handlers completing after the "
-          "connection is gone or after Server::cleanup(): nothing may escape runLoop() or trip a sanitizer. "
+          "connection is gone or after Server::cleanup(); one case in 8 carries a boundary Content-Length as above: nothing may escape runLoop() or trip a sanitizer, the "
+          "handlers may not be called more often than requests were sent (bound: bytes sent / 16 + 1; the first stage throws a harness exception to get out of a "
+          "server that re-delivers for ever), and a delivered request has as many body bytes as its decimal Content-Length. "
           "Non-trivial: stream of at least 2 requests or 60 bytes; pipeline with at least 2 requests, a parked response or a late closing response; hostile input "
           "of at least 4 bytes. distinct = distinct hashes of (stream bytes, cuts, handler script)."),
     assumptions=[
